@@ -166,8 +166,14 @@ func (g *Gate) Eval(fn *ssa.Function) *Summary {
 // EvalArgs evaluates fn with the given argument expressions (and free-variable
 // bindings for closures).
 func (g *Gate) EvalArgs(fn *ssa.Function, args []*E, bindings []*E) *Summary {
-	m := &mem{m: map[string]*E{}}
-	return g.eval(fn, args, bindings, m, True)
+	seq0, subs0, top0 := g.seq, len(g.Subs), g.Top
+	s := g.eval(fn, args, bindings, &mem{m: map[string]*E{}}, True)
+	if s != nil && len(g.stack) == 0 && g.findMemoInvariants(s) {
+		// a value computed lazily once inside a loop: evaluate again with the invariant
+		g.seq, g.Subs, g.Top = seq0, g.Subs[:subs0], top0
+		s = g.eval(fn, args, bindings, &mem{m: map[string]*E{}}, True)
+	}
+	return s
 }
 
 type frame struct {
